@@ -233,6 +233,18 @@ class Kinds:
         return K('call', name=name, ref=None, args=args, kws=kws, node=e)
 
     # ------------------------------------------------------------------
+    def origin(self, e: ast.AST, at: Node, depth: int = 6):
+        """Follow plain names through their single reaching assignment: the expression (and the CFG
+        node of that assignment) a value was computed by.  `t = Tape(x); f(t)` -> the Tape(x) call."""
+        node = at
+        while depth > 0 and isinstance(e, ast.Name):
+            defs = self.cfg.defs_reaching(e.id, node)
+            if len(defs) != 1 or defs[0][1] != 'assign' or not isinstance(defs[0][2], ast.AST):
+                break
+            node, e = defs[0][0], defs[0][2]
+            depth -= 1
+        return e, node
+
     def recv_type(self, k: K) -> str | None:
         """'Tape' / 'Stack' / 'dict' ... for a receiver kind, from annotations,
         constructors and `self` inside the class."""
